@@ -30,7 +30,9 @@ ASSUMPTIONS = [
     "generated in a separate class and reported as an observation, not judged",
 ]
 
-RESET_TIMEOUT = 5.0
+from vlib import cfg
+
+RESET_TIMEOUT = cfg.reset_timeout()  # "the reset timeout"
 SOFTWARE = 0x0B
 RST_WIRE = bytes.fromhex("1ac038bc7e")
 
